@@ -95,14 +95,12 @@ fn check_bulk(a: &Actor, items: &[(Key, u64); B], n: usize, source: usize, is_de
     assert!(ok == successful.is_none());
 }
 
-#[kani::proof]
-#[kani::unwind(5)]
-fn ab_on_multi_set() {
+fn multi_set_contract(max_n: usize) {
     let mut a = new_actor();
     let items: [(Key, u64); B] = [(kani::any(), kani::any()), (kani::any(), kani::any()), (kani::any(), kani::any())];
     let n: usize = kani::any();
     let source: usize = kani::any();
-    kani::assume(n <= B && source < NUM_SOURCES);
+    kani::assume(n <= B && n <= max_n && source < NUM_SOURCES);
     let mut docs = DocVec::new();
     let mut i = 0;
     while i < B {
@@ -116,19 +114,17 @@ fn ab_on_multi_set() {
         Ok(()) => check_bulk(&a, &items, n, source, false, true, None),
         Err(e) => check_bulk(&a, &items, n, source, false, false, Some(e.successful_doc_ids())),
     }
-    kani::cover!(r.is_err() && n == 3 && a.state.ops.len() == 1, "partial failure: one of three written");
-    kani::cover!(r.is_ok() && n == 3 && a.state.ops.len() == 3, "all three applied");
-    kani::cover!(r.is_ok() && n == 3 && a.state.ops.len() == 2, "one of three not newest, skipped before storage");
+    kani::cover!(max_n < 3 || (r.is_err() && n == 3 && a.state.ops.len() == 1), "partial failure: one of three written");
+    kani::cover!(max_n < 3 || (r.is_ok() && n == 3 && a.state.ops.len() == 3), "all three applied");
+    kani::cover!(max_n < 3 || (r.is_ok() && n == 3 && a.state.ops.len() == 2), "one of three not newest, skipped before storage");
 }
 
-#[kani::proof]
-#[kani::unwind(5)]
-fn ab_on_multi_del() {
+fn multi_del_contract(max_n: usize) {
     let mut a = new_actor();
     let items: [(Key, u64); B] = [(kani::any(), kani::any()), (kani::any(), kani::any()), (kani::any(), kani::any())];
     let n: usize = kani::any();
     let source: usize = kani::any();
-    kani::assume(n <= B && source < NUM_SOURCES);
+    kani::assume(n <= B && n <= max_n && source < NUM_SOURCES);
     let mut docs = DocVec::new();
     let mut i = 0;
     while i < B {
@@ -142,8 +138,30 @@ fn ab_on_multi_del() {
         Ok(()) => check_bulk(&a, &items, n, source, true, true, None),
         Err(e) => check_bulk(&a, &items, n, source, true, false, Some(e.successful_doc_ids())),
     }
-    kani::cover!(r.is_err() && n == 3 && a.state.ops.len() == 1, "partial failure");
-    kani::cover!(r.is_ok() && n == 3 && a.state.ops.len() == 3, "all three applied");
+    kani::cover!(max_n < 3 || (r.is_err() && n == 3 && a.state.ops.len() == 1), "partial failure");
+    kani::cover!(max_n < 3 || (r.is_ok() && n == 3 && a.state.ops.len() == 3), "all three applied");
+}
+
+#[kani::proof]
+#[kani::unwind(5)]
+fn ab_on_multi_set() {
+    multi_set_contract(3);
+}
+#[kani::proof]
+#[kani::unwind(5)]
+fn ab_on_multi_del() {
+    multi_del_contract(3);
+}
+/// the same contracts for batches of <= 2 documents (quick tier)
+#[kani::proof]
+#[kani::unwind(5)]
+fn ab_on_multi_set_2() {
+    multi_set_contract(2);
+}
+#[kani::proof]
+#[kani::unwind(5)]
+fn ab_on_multi_del_2() {
+    multi_del_contract(2);
 }
 
 // native replay of Kani counterexamples (tools/replay.py writes the file)
